@@ -65,6 +65,16 @@ odd = Table(
 )
 
 
+# same column names as pk_user but an unrelated table: target of aliased(User, user_archive, adapt_on_names=True)
+user_archive = Table(
+    "pk_user_archive", metadata,
+    Column("id", Integer, primary_key=True),
+    Column("name", String(50)),
+    Column("nick", String(50)),
+    Column("bio", String(200)),
+)
+
+
 def populate(session):
     """deterministic fixture rows"""
     kws = [Keyword(id=i, word=w) for i, w in enumerate(["red", "green", "blue"], 1)]
@@ -77,5 +87,6 @@ def populate(session):
         session.add(u)
     session.flush()
     session.execute(item.insert(), [{"id": k, "user_id": 1 + k % 4, "label": f"L{k % 3}", "qty": k * 2} for k in range(1, 9)])
+    session.execute(user_archive.insert(), [{"id": 100 + k, "name": f"user{k % 3}", "nick": f"n{k % 2}", "bio": f"old {k}"} for k in range(1, 6)])
     session.execute(odd.insert(), [{"id": 1, "a:b": 5}, {"id": 2, "a:b": 7}])
     session.commit()
